@@ -1,6 +1,6 @@
 (** C05 — proofs about Model/Vary.v. *)
 From Coq Require Import Sorting.Sorted.
-From KV Require Import Bytes RustInt Range CacheControl Cache CacheProofs Fixture RustStd RustStdProofs Vary.
+From KV Require Import Bytes RustInt Range CacheControl Cache CacheProofs Cache04Proofs Fixture CacheX CacheXProofs RustStd RustStdProofs Vary.
 From Coq Require Import ZifyBool ZifyNat ZifyN.
 Open Scope N_scope.
 
@@ -544,9 +544,17 @@ Section Histories.
         * exists (c2, hs'), (finishX r f headers ims_on true), lg. cbn [fst snd].
           split; [reflexivity|]. split; [exact I2|]. split; [|split; reflexivity].
           exists f, ims_on, true. subst headers. split; [exact Cf | reflexivity].
-        * rewrite (push_at dbg (ve_var e') LL G f _ El) by apply headers_for_request_length.
+        * cbv zeta.
+          destruct (wants_cache cache_on (rq_method r) f && (negb (f_spref f =? SP_QUERY) || key_has_query k')
+                    && negb (kvarn_none f)).
+          2:{ (* the variant is not admitted: served, the cache left as it is *)
+              exists (c2, hs'), (finishX r f (headers_for_request (vr_refs (ve_var e')) r) ims_on true), lg. cbn [fst snd].
+              split; [reflexivity|]. split; [exact I2|]. split; [|split; reflexivity].
+              exists f, ims_on, true. split; [exact Cf|]. rewrite Hrefs, Hp'. reflexivity. }
+          rewrite (push_at dbg (ve_var e') LL G f _ El) by apply headers_for_request_length.
           eexists; eexists; exists lg. split; [reflexivity|]. cbn [fst snd]. split; [|split; [|split; reflexivity]].
-          -- apply InvV_insert; [exact I2|]. unfold entry_okV. cbn [ve_var vr_resps vr_refs].
+          -- destruct (N.of_nat (length (f_body f)) <? size_limit); [|exact I2].
+             apply InvV_insert; [exact I2|]. unfold entry_okV. cbn [ve_var vr_resps vr_refs].
              split; [|split; [|split]].
              ++ apply insert_sorted; [rewrite <- El; exact S | exact FL | exact FG].
              ++ destruct LL; discriminate.
@@ -561,11 +569,12 @@ Section Histories.
         exists f, ims_on, true. split; [exact Cf | exact Er].
   Qed.
 
-  (** a reply served from the cache: 304, or a stored response that was computed for a request with the
-      same path and an *equal* transformed header list *)
+  (** a reply served from the cache: the entry holds a response that was computed for a request with the same
+      path and an *equal* transformed header list, and the reply is that stored response — or, since the repair
+      832d735 only then, the bare 304 that vouches for it *)
   Definition cached_reply (r : request) (rp : reply) : Prop :=
-    (rp_status rp = 304 /\ rp_body rp = [] /\ rp_headers rp = [])
-    \/ exists f r1, computed f r1 /\ rq_path r1 = rq_path r /\ own r1 = own r /\ rp = finishX r f (own r) ims_on true.
+    exists f r1, computed f r1 /\ rq_path r1 = rq_path r /\ own r1 = own r /\
+      ((rp_status rp = 304 /\ rp_body rp = [] /\ rp_headers rp = []) \/ rp = finishX r f (own r) ims_on true).
 
   Lemma phase1_ok c hs now r0 :
     InvV c ->
@@ -573,7 +582,7 @@ Section Histories.
     \/ (exists c1 p, phase1 (c, hs) now r0 = Ok (inr (c1, p)) /\ InvV c1 /\ parked_ok p /\
                      parked_req p = prime r0 /\ parked_flag p = sanitize_ok r0).
   Proof.
-    intros I. unfold serveV_phase1. set (r := prime r0). set (ok := sanitize_ok r0).
+    intros I. unfold serveV_phase1, serveV_phase1_gen. set (r := prime r0). set (ok := sanitize_ok r0).
     destruct cache_on; cbn [negb].
     2:{ right. exists c, (PkMiss r ok). split; [reflexivity|]. split; [exact I|]. cbn. auto. }
     destruct (vlookup r c now) as [[k found0] c1] eqn:L.
@@ -582,17 +591,19 @@ Section Histories.
     2:{ right. exists c1, (PkMiss r ok). split; [reflexivity|]. split; [exact I1|]. cbn. auto. }
     destruct (ok && get_or_head (rq_method r)).
     2:{ right. exists c1, (PkMiss r ok). split; [reflexivity|]. split; [exact I1|]. cbn. auto. }
-    destruct (match (if ims_on then match header (B "if-modified-since") r with Some v => parse_ims v | None => None end else None)
-              with Some t => ims_fresh t (ve_created e) | None => false end).
-    { left. eexists; eexists. split; [reflexivity|]. split; [exact I1|]. left. cbn. auto. }
+    cbv zeta. cbn [orb].
     destruct (Hf e eq_refl) as (S & Hne & Hrefs & Hall).
     destruct (get_by_request_sorted (ve_var e) r S) as [(f0 & _ & Hin & Eg) | (_ & LL & G & El & Eg & FL & FG)]; rewrite Eg.
-    - left. eexists; eexists. split; [reflexivity|]. split; [exact I1|]. right.
-      destruct (Hall _ _ Hin) as (r1 & C1 & P1 & T1).
-      exists f0, r1. rewrite Hrefs, Hk in *. split; [exact C1|]. split; [exact P1|].
-      assert (Ho : own r1 = own r) by (unfold own_tuple; rewrite P1; symmetry; exact T1).
-      split; [exact Ho | reflexivity].
-    - right. exists c1, (PkVary r ok k (length LL) (headers_for_request (vr_refs (ve_var e)) r)).
+    - left. destruct (Hall _ _ Hin) as (r1 & C1 & P1 & T1).
+      assert (Ho : own r1 = own r).
+      { rewrite Hrefs, Hk in *. unfold own_tuple. rewrite P1. symmetry. exact T1. }
+      destruct (match (if ims_on then match header (B "if-modified-since") r with Some v => parse_ims v | None => None end else None)
+                with Some t => ims_fresh t (ve_created e) | None => false end); cbn [andb].
+      + eexists; eexists. split; [reflexivity|]. split; [exact I1|].
+        exists f0, r1. rewrite Hk in P1. split; [exact C1|]. split; [exact P1|]. split; [exact Ho|]. left. cbn. auto.
+      + eexists; eexists. split; [reflexivity|]. split; [exact I1|].
+        exists f0, r1. rewrite Hrefs, Hk in *. split; [exact C1|]. split; [exact P1|]. split; [exact Ho|]. right. reflexivity.
+    - right. rewrite andb_false_r. exists c1, (PkVary r ok k (length LL) (headers_for_request (vr_refs (ve_var e)) r)).
       split; [reflexivity|]. split; [exact I1|]. cbn [parked_ok parked_req parked_flag].
       split; [|split; reflexivity]. split; [exact Hk|]. rewrite Hrefs, Hk. reflexivity.
   Qed.
@@ -625,7 +636,7 @@ Section Histories.
     - destruct (serveV_ok c hs now r I) as (st' & rp & lg & calls & E & I' & Hs). rewrite E.
       exists st', now, (ObReply rp lg), calls. split; [reflexivity|]. split; assumption.
     - eexists; eexists; eexists; eexists. split; [reflexivity|]. cbn [fst]. split; [|reflexivity].
-      unfold vclear_page. apply InvV_remove, InvV_remove, I.
+      unfold vclear_page, vclear_uri. destruct (redirect_target r); repeat apply InvV_remove; exact I.
     - eexists; eexists; eexists; eexists. split; [reflexivity|]. cbn [fst]. split; [apply InvV_nil | reflexivity].
     - eexists; eexists; eexists; eexists. split; [reflexivity|]. cbn [fst]. split; [exact I | reflexivity].
   Qed.
@@ -800,7 +811,7 @@ Section RefinesMap.
                /\ RelS c' (fst (fst (fst (fst (specServe s hs r0))))).
   Proof.
     intros HR [Hok Hims].
-    unfold serveV, serveV_phase1, spec_serve. cbn [negb]. rewrite Hok. set (r := prime r0) in *.
+    unfold serveV, serveV_phase1, serveV_phase1_gen, spec_serve. cbn [negb]. rewrite Hok. set (r := prime r0) in *.
     rewrite (vlookup_rel c s r now HR). cbn [andb].
     pose proof HR as [Hpq Hp]. specialize (Hp (rq_path r)).
     destruct (get_or_head (rq_method r)) eqn:GH; cbn [andb].
@@ -825,7 +836,7 @@ Section RefinesMap.
                                            | Some v => parse_ims v | None => None end else None) with
                      | Some t => ims_fresh t (ve_created e) | None => false end) = false).
       { destruct Hims as [-> | Hh]; [reflexivity|]. fold r in Hh. rewrite Hh. destruct ims_on; reflexivity. }
-      rewrite Hno. clear Hno.
+      cbv zeta. rewrite Hno. clear Hno. cbn [andb].
       assert (Ht : headers_for_request (vr_refs (ve_var e)) r = own_tuple rules_of r).
       { rewrite Hrefs. reflexivity. }
       destruct (get_by_request_sorted (ve_var e) r S) as [(f0 & Ef & _ & Eg) | (En & LL & G & El & Eg & FL & FG)];
@@ -838,8 +849,12 @@ Section RefinesMap.
         destruct (compute hs r true) as [[f hs'] lg] eqn:C. cbn [fst snd] in *.
         destruct HS as (Hms & Hlf & Hq).
         unfold vrelookup, vget_item. cbn [key_p]. unfold key_p. rewrite F. unfold vfresh. rewrite Hl.
-        rewrite Eg. rewrite (push_at dbg (ve_var e) LL G f _ El) by (rewrite <- Ht; apply headers_for_request_length).
-        rewrite Hl. cbn [option_map]. rewrite Hhas, !andb_true_r. cbn [andb].
+        rewrite Eg. cbv zeta.
+        assert (Hms' := Hms). unfold may_store in Hms'.
+        apply andb_true_iff in Hms' as [Hms' Hkn]. apply andb_true_iff in Hms' as [Hw Hsz].
+        rewrite Hw, Hq, Hkn, Hsz. cbn [negb orb andb].
+        rewrite (push_at dbg (ve_var e) LL G f _ El) by (rewrite <- Ht; apply headers_for_request_length).
+        rewrite Hl, Hlf. cbn [option_map min_life]. rewrite Hhas, !andb_true_r. cbn [andb].
         eexists. split; [reflexivity|].
         apply RelS_insert; cbn [ve_var vr_resps vr_refs ve_life]; try assumption; try reflexivity.
         * apply insert_sorted; [rewrite <- El; exact S | exact FL | exact FG].
@@ -872,23 +887,31 @@ Section RefinesMap.
     - destruct (serve_refines c s hs now r0 HR Ho) as (c' & E & R'). rewrite E.
       destruct (specServe s hs r0) as [[[[s' hs'] rp] lg] calls]. cbn [fst snd] in *.
       exists c'. split; [reflexivity | exact R'].
-    - cbn [fst snd]. pose proof HR as [Hpq Hp].
-      destruct (key_pq_is_pq r) as (s0 & i & Epq). rewrite Epq, Hpq. unfold key_p.
-      exists (vclear_page r c). split.
-      + f_equal. f_equal. f_equal. f_equal. specialize (Hp (rq_path r)).
-        destruct (pc_find (KPath (rq_path r)) c) as [e|]; [destruct Hp as (_ & _ & _ & -> & _) | rewrite Hp]; reflexivity.
-      + unfold vclear_page. rewrite Epq. unfold key_p. split.
-        * intros s1 i1. rewrite !pc_find_remove. cbn [key_eqb].
-          destruct (beq s1 s0 && Nat.eqb i1 i); apply Hpq || reflexivity.
-        * intros q. rewrite !pc_find_remove. cbn [key_eqb].
-          destruct (beq q (rq_path r)) eqn:Eq.
-          -- apply beq_eq in Eq. subst q. apply seen_has_page_clear_same.
-          -- specialize (Hp q). destruct (pc_find (KPath q) c) as [e|].
-             ++ destruct Hp as (S0 & R0 & L0 & H0 & F0). unfold page_rel.
-                split; [exact S0|]. split; [exact R0|]. split; [exact L0|]. split.
-                ** rewrite seen_has_page_clear_other by exact Eq. exact H0.
-                ** intros t. rewrite seen_find_clear_other by exact Eq. apply F0.
-             ++ rewrite seen_has_page_clear_other by exact Eq. exact Hp.
+    - cbn [fst snd].
+      (* one URI: the keys of [r1] against the page [rq_path r1] *)
+      assert (HU : forall r1 c1 s1, RelS c1 s1 ->
+                vhas_uri r1 c1 = seen_has_page (rq_path r1) s1 /\
+                RelS (vclear_uri r1 c1) (seen_clear (rq_path r1) s1)).
+      { intros r1 c1 s1 [Hpq Hp]. destruct (key_pq_is_pq r1) as (s0 & i & Epq). split.
+        - unfold vhas_uri. rewrite Epq, Hpq. unfold key_p. specialize (Hp (rq_path r1)).
+          destruct (pc_find (KPath (rq_path r1)) c1) as [e|]; [destruct Hp as (_ & _ & _ & -> & _) | rewrite Hp]; reflexivity.
+        - unfold vclear_uri. rewrite Epq. unfold key_p. split.
+          * intros s2 i1. rewrite !pc_find_remove. cbn [key_eqb].
+            destruct (beq s2 s0 && Nat.eqb i1 i); apply Hpq || reflexivity.
+          * intros q. rewrite !pc_find_remove. cbn [key_eqb].
+            destruct (beq q (rq_path r1)) eqn:Eq.
+            -- apply beq_eq in Eq. subst q. apply seen_has_page_clear_same.
+            -- specialize (Hp q). destruct (pc_find (KPath q) c1) as [e|].
+               ++ destruct Hp as (S0 & R0 & L0 & H0 & F0). unfold page_rel.
+                  split; [exact S0|]. split; [exact R0|]. split; [exact L0|]. split.
+                  ** rewrite seen_has_page_clear_other by exact Eq. exact H0.
+                  ** intros t. rewrite seen_find_clear_other by exact Eq. apply F0.
+               ++ rewrite seen_has_page_clear_other by exact Eq. exact Hp. }
+      exists (vclear_page r c). unfold vclear_page, vpage_cleared.
+      destruct (HU r c s HR) as [H1 R1].
+      destruct (redirect_target r) as [r'|]; cbn [fst snd].
+      + destruct (HU r' _ _ R1) as [H2 R2]. rewrite H1, H2. split; [reflexivity | exact R2].
+      + rewrite H1, orb_false_r. split; [reflexivity | exact R1].
     - cbn [fst snd]. exists []. split; [reflexivity | apply RelS_nil].
     - cbn [fst snd]. exists c. split; [reflexivity | exact HR].
   Qed.
@@ -1069,12 +1092,25 @@ Proof.
            (RelS_nil rules_of) Hops).
 Qed.
 
-(** ---- 12. the vector layer refines the association-list layer of Model/Cache.v (C03/C04) ---- *)
+(** ---- 12. the vector layer refines the association-list layer of Model/CacheX.v (C03/C04) ---- *)
 Lemma same_names_eq (a c : hcoll) : map fst a = map fst c -> map snd a = map snd c -> a = c.
 Proof.
   revert c; induction a as [|[n v] a IH]; intros [|[n' v'] c]; cbn [map fst snd]; intros H1 H2; try discriminate; [reflexivity|].
   inversion H1; inversion H2; subst. f_equal. apply IH; assumption.
 Qed.
+
+(** replies, observations and operations of Model/Cache.v in the vocabulary of Model/CacheX.v: no filler bytes, no stream *)
+Definition rx_of (rp : reply) : replyx :=
+  {| rx_status := rp_status rp; rx_headers := rp_headers rp; rx_pad := 0; rx_body := rp_body rp; rx_ipad := 0;
+     rx_identity := rp_identity rp; rx_last_modified := rp_last_modified rp; rx_from_cache := rp_from_cache rp;
+     rx_stream := None |}.
+Definition obx_of (o : obs) : obsx :=
+  match o with ObReply rp lg => XbReply (rx_of rp) lg | ObCleared a b => XbCleared a b | ObNone => XbNone end.
+Definition opx_of (o : op) : opx :=
+  match o with OReq r => XReq r | OClearPage r => XClearPage r | OClearAll => XClearAll | OWait ms => XWait ms end.
+
+Lemma lookup_req_method r ov : rq_method (lookup_req r ov) = rq_method r.
+Proof. destruct ov as [[p q]|]; reflexivity. Qed.
 
 Section RefinesAssoc.
   Variable hstate : Type.
@@ -1088,30 +1124,43 @@ Section RefinesAssoc.
   Variable rules_of : bytes -> list rule.
   Variable dbg : bool.
 
-  (** the instances of Model/Cache.v's section variables that the vector model realises *)
+  (** the instances of Model/CacheX.v's section variables that the vector model realises: the vary tuple is the list
+      of transformed values of the rules of the URI that is looked up, the vary header the one [get_header] builds,
+      responses are plain (no stream, no filler), the status filter is the default one, no Prime extension answers
+      with an internal URI, [clear_page] uses the default redirect *)
   Definition vary_tuple_of (r : request) : tuple := map snd (own_tuple rules_of r).
   Definition vary_header_of (r : request) (f : fat) : list (bytes * bytes) :=
     match f_body f with
     | [] => []
     | _ :: _ => [(B "vary", get_header (own_tuple rules_of r) false)]
     end.
-  (** handlers do not set a [vary] header of their own (Model/Cache.v appends the cache's; the code replaces) *)
+  Definition computeX (hs : hstate) (r : request) (ov : option (bytes * option bytes)) (ok : bool) : fatx * hstate * list bytes :=
+    let '(f, hs', lg) := compute hs (lookup_req r ov) ok in (plain f, hs', lg).
+  Definition negotiateX (r : request) (x : fatx) : option (N * bytes) := negotiate r (fx_fat x).
+  Definition vary_tupleX (r : request) (ov : option (bytes * option bytes)) : tuple := vary_tuple_of (lookup_req r ov).
+  Definition vary_headerX (r : request) (ov : option (bytes * option bytes)) (x : fatx) : list (bytes * bytes) :=
+    vary_header_of (lookup_req r ov) (fx_fat x).
+  Definition no_override (r : request) : option (bytes * option bytes) := None.
+  (** handlers do not set a [vary] header of their own (Model/CacheX.v appends the cache's; the code replaces) *)
   Hypothesis Hnovary : forall hs r ok, assoc (B "vary") (f_headers (fst (fst (compute hs r ok)))) = None.
 
   Notation own := (own_tuple rules_of).
-  Notation serveX := (serveV hstate compute cache_on ims_on parse_ims sanitize_ok prime negotiate rules_of dbg).
-  Notation serveA := (serve hstate compute cache_on ims_on parse_ims sanitize_ok prime negotiate vary_tuple_of vary_header_of).
-  Notation finishA := (finish negotiate vary_header_of).
-  Notation finishX := (finishV negotiate).
+  Notation serveVn := (serveV hstate compute cache_on ims_on parse_ims sanitize_ok prime negotiate rules_of dbg).
+  Notation serveA := (CacheX.serveX hstate computeX cache_on ims_on true true true true true status_filter_drop parse_ims
+                                    sanitize_ok prime no_override negotiateX vary_tupleX vary_headerX).
+  Notation finishA := (CacheX.finishX true negotiateX vary_headerX).
+  Notation finishVn := (finishV negotiate).
 
-  Lemma finish_same r f lm cached :
-    assoc (B "vary") (f_headers f) = None -> finishX r f (own r) lm cached = finishA r f lm cached.
+  Lemma finish_same r f lm cached m :
+    assoc (B "vary") (f_headers f) = None -> rx_of (finishVn r f (own r) lm cached) = finishA r None (plain f) lm cached m.
   Proof.
-    intros Hn. unfold finishV, finish, vary_header_of, apply_header. destruct (negotiate r f) as [[st body]|].
-    - cbn [f_body]. destruct body; reflexivity.
-    - destruct (f_body f) eqn:Eb.
+    intros Hn. unfold finishV, CacheX.finishX, negotiateX, vary_headerX, vary_header_of, apply_header, rx_of.
+    cbn [is_stream plain fx_stream fx_fat fx_pad lookup_req]. destruct (negotiate r f) as [[st body]|].
+    - cbn [f_body rp_status rp_headers rp_body rp_identity rp_last_modified rp_from_cache]. destruct body; reflexivity.
+    - cbn [rp_status rp_headers rp_body rp_identity rp_last_modified rp_from_cache]. rewrite orb_true_r. cbn [andb].
+      destruct (f_body f) eqn:Eb.
       + rewrite app_nil_r. reflexivity.
-      + rewrite Hn. cbn [andb]. unfold hm_insert. rewrite filter_id_assoc_none by exact Hn. reflexivity.
+      + unfold hm_insert. rewrite filter_id_assoc_none by exact Hn. reflexivity.
   Qed.
 
   Lemma own_eqb r r0 : rq_path r = rq_path r0 ->
@@ -1125,11 +1174,27 @@ Section RefinesAssoc.
       rewrite E, hc_eqb_refl in E1. discriminate.
   Qed.
 
-  Definition entry_rel (k : key) (ve : ventry) (e : entry) : Prop :=
-    ve_created ve = e_created e /\ ve_life ve = e_life e /\
-    forall r, rq_path r = kpath k -> v_find (vary_tuple_of r) (e_vars e) = vfind (own r) (vr_resps (ve_var ve)).
-  Definition cache_rel (cV : vcache) (c : cache) : Prop :=
-    forall k, match pc_find k cV, c_find k c with
+  (** the admission tests of the two models *)
+  Lemma wants_same m f : wants_cache_x cache_on status_filter_drop m (plain f) = wants_cache cache_on m f.
+  Proof. reflexivity. Qed.
+  Lemma may_store_same m f : may_store_x cache_on status_filter_drop m (plain f) = may_store cache_on m f.
+  Proof. unfold may_store_x, may_store, fx_len. rewrite wants_same. cbn [plain fx_pad fx_fat]. rewrite N.add_0_l. reflexivity. Qed.
+  Lemma accept_same m f k :
+    may_store_x cache_on status_filter_drop m (plain f) && (negb true || qm_key_ok k (plain f))
+    = (wants_cache cache_on m f && (negb (f_spref f =? SP_QUERY) || key_has_query k) && negb (kvarn_none f))
+      && (N.of_nat (length (f_body f)) <? size_limit).
+  Proof.
+    rewrite may_store_same. unfold may_store, qm_key_ok, qmx, key_has_query. cbn [plain fx_fat negb orb].
+    destruct (wants_cache cache_on m f), (N.of_nat (length (f_body f)) <? size_limit), (kvarn_none f),
+      (negb (f_spref f =? SP_QUERY) || match k with KPath _ => false | KPathQuery _ _ => true end); reflexivity.
+  Qed.
+
+  Definition entry_rel (k : key) (ve : ventry) (e : entryx) : Prop :=
+    ve_created ve = ex_created e /\ ve_life ve = ex_life e /\
+    forall r, rq_path r = kpath k ->
+      option_map v_resp (xv_find (vary_tuple_of r) (ex_vars e)) = option_map plain (vfind (own r) (vr_resps (ve_var ve))).
+  Definition cache_rel (cV : vcache) (c : cachex) : Prop :=
+    forall k, match pc_find k cV, xc_find k c with
               | Some ve, Some e => entry_rel k ve e
               | None, None => True
               | _, _ => False
@@ -1137,29 +1202,29 @@ Section RefinesAssoc.
 
   Lemma cache_rel_nil : cache_rel [] [].
   Proof. intros k. exact Logic.I. Qed.
-  Lemma cache_rel_remove k cV c : cache_rel cV c -> cache_rel (pc_remove k cV) (c_remove k c).
+  Lemma cache_rel_remove k cV c : cache_rel cV c -> cache_rel (pc_remove k cV) (xc_remove k c).
   Proof.
-    intros H k0. rewrite pc_find_remove, c_find_remove. destruct (key_eqb k0 k); [exact Logic.I | apply H].
+    intros H k0. rewrite pc_find_remove, xc_find_remove. destruct (key_eqb k0 k); [exact Logic.I | apply H].
   Qed.
-  Lemma cache_rel_insert k ve e cV c : cache_rel cV c -> entry_rel k ve e -> cache_rel (pc_insert k ve cV) (c_insert k e c).
+  Lemma cache_rel_insert k ve e cV c : cache_rel cV c -> entry_rel k ve e -> cache_rel (pc_insert k ve cV) (xc_insert k e c).
   Proof.
-    intros H He k0. rewrite pc_find_insert, c_find_insert. destruct (key_eqb k0 k) eqn:Ek; [|apply H].
+    intros H He k0. rewrite pc_find_insert, xc_find_insert. destruct (key_eqb k0 k) eqn:Ek; [|apply H].
     apply key_eqb_eq in Ek. subst. exact He.
   Qed.
 
   Lemma get_item_rel k cV c now :
     cache_rel cV c ->
-    match vget_item k cV now, get_item k c now with
+    match vget_item k cV now, xget_item k c now with
     | (Some ve, cV'), (Some e, c') => entry_rel k ve e /\ cV' = cV /\ c' = c /\ pc_find k cV = Some ve /\ vfresh ve now = true
     | (None, cV'), (None, c') => cache_rel cV' c'
     | _, _ => False
     end.
   Proof.
-    intros H. unfold vget_item, get_item. pose proof (H k) as Hk.
-    destruct (pc_find k cV) as [ve|] eqn:F1, (c_find k c) as [e|] eqn:F2; try contradiction.
-    - assert (Ef : vfresh ve now = fresh e now).
-      { destruct Hk as (Ec & El & _). unfold vfresh, fresh. rewrite Ec, El. reflexivity. }
-      rewrite Ef. destruct (fresh e now) eqn:Efr.
+    intros H. unfold vget_item, xget_item. pose proof (H k) as Hk.
+    destruct (pc_find k cV) as [ve|] eqn:F1, (xc_find k c) as [e|] eqn:F2; try contradiction.
+    - assert (Ef : vfresh ve now = xfresh e now).
+      { destruct Hk as (Ec & El & _). unfold vfresh, xfresh. rewrite Ec, El. reflexivity. }
+      rewrite Ef. destruct (xfresh e now) eqn:Efr.
       + split; [exact Hk|]. repeat split; try reflexivity; exact Ef.
       + apply cache_rel_remove. exact H.
     - exact H.
@@ -1167,20 +1232,20 @@ Section RefinesAssoc.
 
   Lemma lookup_rel r cV c now :
     cache_rel cV c ->
-    match vlookup r cV now, lookup r c now with
+    match vlookup r cV now, xlookup r c now with
     | ((kV, Some ve), cV'), ((k, Some e), c') =>
         kV = k /\ entry_rel k ve e /\ cache_rel cV' c' /\ pc_find k cV' = Some ve /\ vfresh ve now = true
-    | ((kV, None), cV'), ((k, None), c') => cache_rel cV' c'
+    | ((kV, None), cV'), ((k, None), c') => kV = k /\ cache_rel cV' c'
     | _, _ => False
     end.
   Proof.
-    intros H. unfold vlookup, lookup. pose proof (get_item_rel (key_pq r) cV c now H) as G1.
-    destruct (vget_item (key_pq r) cV now) as [[ve|] cV1], (get_item (key_pq r) c now) as [[e|] c1]; try contradiction.
+    intros H. unfold vlookup, xlookup. pose proof (get_item_rel (key_pq r) cV c now H) as G1.
+    destruct (vget_item (key_pq r) cV now) as [[ve|] cV1], (xget_item (key_pq r) c now) as [[e|] c1]; try contradiction.
     - destruct G1 as (He & -> & -> & F & Fr). split; [reflexivity|]. split; [exact He|]. split; [exact H|]. split; assumption.
     - pose proof (get_item_rel (key_p r) cV1 c1 now G1) as G2.
-      destruct (vget_item (key_p r) cV1 now) as [[ve|] cV2], (get_item (key_p r) c1 now) as [[e|] c2]; try contradiction.
+      destruct (vget_item (key_p r) cV1 now) as [[ve|] cV2], (xget_item (key_p r) c1 now) as [[e|] c2]; try contradiction.
       + destruct G2 as (He & -> & -> & F & Fr). split; [reflexivity|]. split; [exact He|]. split; [exact G1|]. split; assumption.
-      + exact G2.
+      + split; [reflexivity | exact G2].
   Qed.
 
   Lemma vrelookup_same k cV now ve : pc_find k cV = Some ve -> vfresh ve now = true -> vrelookup k cV now = ((k, Some ve), cV).
@@ -1190,17 +1255,20 @@ Section RefinesAssoc.
     InvV hstate compute rules_of cV1 -> cache_rel cV1 c1 ->
     exists cV' c' hs' rp lg,
       missV hstate compute cache_on ims_on negotiate rules_of dbg cV1 hs now r ok = Ok ((cV', hs'), rp, lg, [r]) /\
-      miss hstate compute cache_on ims_on negotiate vary_tuple_of vary_header_of c1 hs now r ok = ((c', hs'), rp, lg) /\
+      missX hstate computeX cache_on ims_on true true status_filter_drop negotiateX vary_tupleX vary_headerX c1 hs now r None ok
+      = ((c', hs'), rx_of rp, lg) /\
       cache_rel cV' c'.
   Proof.
-    intros I H. unfold missV, miss, new_and_cache. pose proof (Hnovary hs r ok) as Hn.
+    intros I H. unfold missV, missX, new_and_cache, computeX. cbn [lookup_req]. pose proof (Hnovary hs r ok) as Hn.
     destruct (compute hs r ok) as [[f hs'] lg]. cbn [fst snd] in Hn.
-    rewrite vr_new_eq. cbn [vr_first vr_resps]. rewrite (finish_same r f _ _ Hn).
+    rewrite vr_new_eq. cbn [vr_first vr_resps]. rewrite may_store_same, wants_same.
+    rewrite <- (finish_same r f _ false true Hn).
     destruct (may_store cache_on (rq_method r) f).
-    - eexists; eexists; eexists; eexists; eexists. split; [reflexivity|]. split; [reflexivity|].
-      apply cache_rel_insert; [exact H|]. unfold entry_rel. cbn [ve_created ve_life e_created e_life ve_var vr_resps e_vars].
+    - eexists; eexists; eexists; eexists; eexists. split; [reflexivity|]. split; [reflexivity|]. cbn [plain fx_fat].
+      apply cache_rel_insert; [exact H|]. unfold entry_rel, lifetime_x.
+      cbn [ve_created ve_life ex_created ex_life ve_var vr_resps ex_vars plain fx_fat].
       split; [reflexivity|]. split; [reflexivity|]. intros r1 Hp. rewrite kpath_insert_key in Hp.
-      cbn [v_find]. unfold vfind. cbn [find snd]. fold (own r). rewrite <- (own_eqb r1 r Hp).
+      cbn [xv_find v_tuple]. unfold vfind, vary_tupleX. cbn [find snd lookup_req]. fold (own r). rewrite <- (own_eqb r1 r Hp).
       destruct (hc_eqb (own r) (own r1)); reflexivity.
     - eexists; eexists; eexists; eexists; eexists. split; [reflexivity|]. split; [reflexivity|]. exact H.
   Qed.
@@ -1208,91 +1276,114 @@ Section RefinesAssoc.
   Lemma serve_rel cV c hs now r0 :
     InvV hstate compute rules_of cV -> cache_rel cV c ->
     exists cV' c' hs' rp lg calls,
-      serveX (cV, hs) now r0 = Ok ((cV', hs'), rp, lg, calls) /\
-      serveA (c, hs) now r0 = ((c', hs'), rp, lg) /\ cache_rel cV' c'.
+      serveVn (cV, hs) now r0 = Ok ((cV', hs'), rp, lg, calls) /\
+      serveA (c, hs) now r0 = ((c', hs'), rx_of rp, lg) /\ cache_rel cV' c'.
   Proof.
-    intros I H. unfold serveV, serveV_phase1, serve. set (r := prime r0). set (ok := sanitize_ok r0).
+    intros I H. unfold serveV, serveV_phase1, serveV_phase1_gen, CacheX.serveX, no_override.
+    set (r := prime r0). set (ok := sanitize_ok r0). cbn [lookup_req].
     destruct (negb cache_on) eqn:Eco.
     { assert (Hc : cache_on = false) by (destruct cache_on; [discriminate | reflexivity]).
-      cbn [serveV_phase2 snd]. unfold missV, new_and_cache. pose proof (Hnovary hs r ok) as Hn.
+      cbn [serveV_phase2 snd]. unfold missV, new_and_cache, computeX. cbn [lookup_req]. pose proof (Hnovary hs r ok) as Hn.
       destruct (compute hs r ok) as [[f hs'] lg]. cbn [fst snd] in Hn.
-      rewrite vr_new_eq. cbn [vr_first vr_resps]. rewrite (finish_same r f _ _ Hn).
+      rewrite vr_new_eq. cbn [vr_first vr_resps]. rewrite <- (finish_same r f _ false true Hn).
       assert (Hms : may_store cache_on (rq_method r) f = false) by (rewrite Hc; reflexivity).
       assert (Hw : wants_cache cache_on (rq_method r) f = false) by (rewrite Hc; reflexivity).
       rewrite Hms, Hw, andb_false_r.
       eexists; eexists; eexists; eexists; eexists; eexists. split; [reflexivity|]. split; [reflexivity | exact H]. }
     pose proof (lookup_rel r cV c now H) as L.
-    destruct (vlookup r cV now) as [[kV foundV] cV1] eqn:LV. destruct (lookup r c now) as [[k found] c1] eqn:LA.
+    destruct (vlookup r cV now) as [[kV foundV] cV1] eqn:LV. destruct (xlookup r c now) as [[k found] c1] eqn:LA.
     destruct (vlookup_inv hstate compute rules_of _ _ _ _ _ _ LV I) as (I1 & Hkp & Hent).
     destruct foundV as [ve|], found as [e|]; try contradiction.
     - destruct L as (-> & He & H1 & F & Fr).
       destruct (ok && get_or_head (rq_method r)) eqn:G.
-      + destruct He as (Ec & El & Hv). rewrite Ec.
-        destruct (match (if ims_on then match header (B "if-modified-since") r with Some v => parse_ims v | None => None end else None)
-                  with Some t => ims_fresh t (e_created e) | None => false end).
-        { eexists; eexists; eexists; eexists; eexists; eexists. split; [reflexivity|]. split; [reflexivity | exact H1]. }
+      + destruct He as (Ec & El & Hv). rewrite Ec. cbv zeta. cbn [negb orb].
         destruct (Hent ve eq_refl) as (S & Hne & Hrefs & Hall).
         assert (Ht : headers_for_request (vr_refs (ve_var ve)) r = own r) by (rewrite Hrefs, Hkp; reflexivity).
-        rewrite (Hv r (eq_sym Hkp)).
+        pose proof (Hv r (eq_sym Hkp)) as Hvr. unfold vary_tupleX. cbn [lookup_req].
         destruct (get_by_request_sorted (ve_var ve) r S) as [(f0 & Ef & Hin & Eg) | (En & LL & GG & Ell & Eg & FL & FG)];
           rewrite Eg; rewrite Ht in *.
-        * rewrite Ef. destruct (Hall _ _ Hin) as (r1 & (hs1 & ok1 & C1) & _ & _).
+        * rewrite Ef in Hvr. destruct (xv_find (vary_tuple_of r) (ex_vars e)) as [v|]; [|discriminate].
+          cbn [option_map] in Hvr. inversion Hvr as [Hvr']. clear Hvr.
+          destruct (Hall _ _ Hin) as (r1 & (hs1 & ok1 & C1) & _ & _).
           assert (Hn : assoc (B "vary") (f_headers f0) = None) by (rewrite <- C1; apply Hnovary).
-          rewrite (finish_same r f0 _ _ Hn).
-          eexists; eexists; eexists; eexists; eexists; eexists. split; [reflexivity|]. split; [reflexivity | exact H1].
-        * rewrite En. cbn [serveV_phase2 snd]. unfold vary_missing. pose proof (Hnovary hs r ok) as Hn.
+          rewrite Hvr'. rewrite <- (finish_same r f0 _ true false Hn).
+          destruct (match (if ims_on then match header (B "if-modified-since") r with Some v0 => parse_ims v0 | None => None end else None)
+                    with Some t => ims_fresh t (ex_created e) | None => false end); cbn [andb];
+            eexists; eexists; eexists; eexists; eexists; eexists; (split; [reflexivity|]); (split; [reflexivity | exact H1]).
+        * rewrite En in Hvr. destruct (xv_find (vary_tuple_of r) (ex_vars e)) as [v|]; [discriminate|]. clear Hvr.
+          rewrite !andb_false_r. cbn [serveV_phase2 snd]. unfold vary_missing, vary_missingX, computeX. cbn [lookup_req].
+          pose proof (Hnovary hs r ok) as Hn.
           apply andb_true_iff in G as [Gok _]. rewrite Gok in *.
           destruct (compute hs r true) as [[f hs'] lg]. cbn [fst snd] in Hn.
-          rewrite (vrelookup_same _ _ _ _ F Fr). rewrite Eg.
+          rewrite (vrelookup_same _ _ _ _ F Fr). rewrite Eg. cbv zeta. rewrite accept_same.
+          rewrite <- (finish_same r f _ true false Hn).
+          destruct (wants_cache cache_on (rq_method r) f && (negb (f_spref f =? SP_QUERY) || key_has_query k)
+                    && negb (kvarn_none f)); cbn [andb].
+          2:{ eexists; eexists; eexists; eexists; eexists; eexists. split; [reflexivity|]. split; [reflexivity | exact H1]. }
           rewrite (push_at dbg (ve_var ve) LL GG f _ Ell) by (rewrite <- Ht; apply headers_for_request_length).
-          rewrite (finish_same r f _ _ Hn). rewrite Ec, El.
+          destruct (N.of_nat (length (f_body f)) <? size_limit).
+          2:{ eexists; eexists; eexists; eexists; eexists; eexists. split; [reflexivity|]. split; [reflexivity | exact H1]. }
           eexists; eexists; eexists; eexists; eexists; eexists. split; [reflexivity|]. split; [reflexivity|].
-          apply cache_rel_insert; [exact H1|]. unfold entry_rel.
-          cbn [ve_created ve_life e_created e_life ve_var vr_resps e_vars]. split; [reflexivity|]. split; [reflexivity|].
-          intros r1 Hp. cbn [v_find]. rewrite vfind_insert by exact FL. rewrite <- Ell.
-          rewrite <- (own_eqb r1 r) by congruence. rewrite (Hv r1 Hp). reflexivity.
+          apply cache_rel_insert; [exact H1|]. unfold entry_rel, lifetime_x.
+          cbn [ve_created ve_life ex_created ex_life ve_var vr_resps ex_vars plain fx_fat]. rewrite Ec, El.
+          split; [reflexivity|]. split; [reflexivity|].
+          intros r1 Hp. cbn [xv_find v_tuple]. rewrite vfind_insert by exact FL. rewrite <- Ell.
+          rewrite <- (own_eqb r1 r) by congruence.
+          destruct (hc_eqb (own r) (own r1)); [reflexivity | exact (Hv r1 Hp)].
       + destruct (miss_rel cV1 c1 hs now r ok I1 H1) as (cV' & c' & hs' & rp & lg & E1 & E2 & H').
         cbn [serveV_phase2 snd]. rewrite E1, E2. eexists; eexists; eexists; eexists; eexists; eexists.
         split; [reflexivity|]. split; [reflexivity | exact H'].
-    - destruct (miss_rel cV1 c1 hs now r ok I1 L) as (cV' & c' & hs' & rp & lg & E1 & E2 & H').
+    - destruct L as [-> L]. destruct (miss_rel cV1 c1 hs now r ok I1 L) as (cV' & c' & hs' & rp & lg & E1 & E2 & H').
       cbn [serveV_phase2 snd]. rewrite E1, E2. eexists; eexists; eexists; eexists; eexists; eexists.
       split; [reflexivity|]. split; [reflexivity | exact H'].
   Qed.
 
-  Notation stepX := (stepV hstate compute cache_on ims_on parse_ims sanitize_ok prime negotiate rules_of dbg).
-  Notation stepA := (step hstate compute cache_on ims_on parse_ims sanitize_ok prime negotiate vary_tuple_of vary_header_of).
-  Notation runX := (runV hstate compute cache_on ims_on parse_ims sanitize_ok prime negotiate rules_of dbg).
-  Notation runA := (run hstate compute cache_on ims_on parse_ims sanitize_ok prime negotiate vary_tuple_of vary_header_of).
+  Notation stepVn := (stepV hstate compute cache_on ims_on parse_ims sanitize_ok prime negotiate rules_of dbg).
+  Notation stepA := (CacheX.stepX hstate computeX cache_on ims_on true true true true true true status_filter_drop parse_ims
+                                  sanitize_ok prime no_override negotiateX vary_tupleX vary_headerX redirect_target).
+  Notation runVn := (runV hstate compute cache_on ims_on parse_ims sanitize_ok prime negotiate rules_of dbg).
+  Notation runA := (CacheX.runX hstate computeX cache_on ims_on true true true true true true status_filter_drop parse_ims
+                                sanitize_ok prime no_override negotiateX vary_tupleX vary_headerX redirect_target).
 
   Lemma find_rel_none k cV c : cache_rel cV c ->
-    match pc_find k cV with None => true | Some _ => false end = match c_find k c with None => true | Some _ => false end.
-  Proof. intros H. specialize (H k). destruct (pc_find k cV), (c_find k c); try contradiction; reflexivity. Qed.
+    match pc_find k cV with None => true | Some _ => false end = match xc_find k c with None => true | Some _ => false end.
+  Proof. intros H. specialize (H k). destruct (pc_find k cV), (xc_find k c); try contradiction; reflexivity. Qed.
 
   Lemma step_rel cV c hs now o :
     InvV hstate compute rules_of cV -> cache_rel cV c ->
     exists cV' c' hs' now' ob calls,
-      stepX (cV, hs) now o = Ok ((cV', hs'), now', ob, calls) /\
-      stepA (c, hs) now o = ((c', hs'), now', ob) /\ cache_rel cV' c'.
+      stepVn (cV, hs) now o = Ok ((cV', hs'), now', ob, calls) /\
+      stepA (c, hs) now (opx_of o) = ((c', hs'), now', obx_of ob) /\ cache_rel cV' c'.
   Proof.
-    intros I H. destruct o as [r0 | r | | ms]; cbn [stepV step].
+    intros I H. destruct o as [r0 | r | | ms]; cbn [stepV CacheX.stepX opx_of].
     - destruct (serve_rel cV c hs now r0 I H) as (cV' & c' & hs' & rp & lg & calls & E1 & E2 & H'). rewrite E1, E2.
       eexists; eexists; eexists; eexists; eexists; eexists. split; [reflexivity|]. split; [reflexivity | exact H'].
-    - pose proof (find_rel_none (key_pq r) cV c H) as N1. pose proof (find_rel_none (key_p r) cV c H) as N2.
-      eexists; eexists; eexists; eexists; eexists; eexists. split; [reflexivity|]. split.
-      + f_equal. f_equal. f_equal.
-        destruct (pc_find (key_pq r) cV), (c_find (key_pq r) c); try discriminate;
-          destruct (pc_find (key_p r) cV), (c_find (key_p r) c); try discriminate; reflexivity.
-      + unfold vclear_page, clear_page. apply cache_rel_remove, cache_rel_remove, H.
+    - assert (HU : forall r1 cV1 c1, cache_rel cV1 c1 ->
+                vhas_uri r1 cV1 = xhas_uri r1 c1 /\ cache_rel (vclear_uri r1 cV1) (xclear_uri r1 c1)).
+      { intros r1 cV1 c1 H1.
+        pose proof (find_rel_none (key_pq r1) cV1 c1 H1) as N1. pose proof (find_rel_none (key_p r1) cV1 c1 H1) as N2.
+        split.
+        - unfold vhas_uri, xhas_uri.
+          destruct (pc_find (key_pq r1) cV1), (xc_find (key_pq r1) c1); try discriminate;
+            destruct (pc_find (key_p r1) cV1), (xc_find (key_p r1) c1); try discriminate; reflexivity.
+        - unfold vclear_uri, xclear_uri. apply cache_rel_remove, cache_rel_remove, H1. }
+      destruct (HU r cV c H) as [E1 R1].
+      unfold vclear_page, vpage_cleared, xclear_page, xcleared.
+      destruct (redirect_target r) as [r'|].
+      + destruct (HU r' _ _ R1) as [E2 R2]. rewrite E1, E2.
+        eexists; eexists; eexists; eexists; eexists; eexists. split; [reflexivity|]. split; [reflexivity | exact R2].
+      + rewrite E1.
+        eexists; eexists; eexists; eexists; eexists; eexists. split; [reflexivity|]. split; [reflexivity | exact R1].
     - eexists; eexists; eexists; eexists; eexists; eexists. split; [reflexivity|]. split; [reflexivity | apply cache_rel_nil].
     - eexists; eexists; eexists; eexists; eexists; eexists. split; [reflexivity|]. split; [reflexivity | exact H].
   Qed.
 
-  (** for every history the observations of the vector server are those of Model/Cache.v's server *)
+  (** for every history the observations of the vector server are those of Model/CacheX.v's server *)
   Lemma run_rel ops : forall cV c hs now,
     InvV hstate compute rules_of cV -> cache_rel cV c ->
-    exists l, runX (cV, hs) now ops = Ok l /\ map fst l = runA (c, hs) now ops.
+    exists l, runVn (cV, hs) now ops = Ok l /\ map (fun oc => obx_of (fst oc)) l = runA (c, hs) now (map opx_of ops).
   Proof.
-    induction ops as [|o ops IH]; intros cV c hs now I H; cbn [runV run].
+    induction ops as [|o ops IH]; intros cV c hs now I H; cbn [runV CacheX.runX map].
     - exists []. split; reflexivity.
     - destruct (step_rel cV c hs now o I H) as (cV' & c' & hs' & now' & ob & calls & E1 & E2 & H').
       destruct (stepV_ok hstate compute cache_on ims_on parse_ims sanitize_ok prime negotiate rules_of dbg cV hs now o I)
@@ -1323,22 +1414,45 @@ Section VaryTransparent.
     vary_tuple_of rules_of r = vary_tuple_of rules_of r' -> rq_path r = rq_path r' ->
     (qm (cf r true) = true -> path_query r = path_query r') ->
     cf r true = cf r' true.
-  Hypothesis pref_uniform : forall r r', rq_path r = rq_path r' -> qm (cf r true) = qm (cf r' true).
   Hypothesis Herr : forall r, f_spref (cf r false) = SP_NONE.
+
+  Lemma rx_equiv a c : replyx_equiv (rx_of a) (rx_of c) -> reply_equiv a c.
+  Proof. intros (H1 & H2 & _ & H4 & _ & H6 & _). repeat split; assumption. Qed.
 
   Lemma vary_transparent ops hs hsU now :
     Forall (op_no_ims ims_on prime) ops ->
-    exists l,
+    exists l lU,
       runV hstate compute true ims_on parse_ims sanitize_ok prime negotiate rules_of dbg ([], hs) now ops = Ok l /\
-      Forall2 obs_equiv (map fst l)
-        (run hstate compute false ims_on parse_ims sanitize_ok prime negotiate (vary_tuple_of rules_of) (vary_header_of rules_of)
-             ([], hsU) now ops).
+      runV hstate compute false ims_on parse_ims sanitize_ok prime negotiate rules_of dbg ([], hsU) now ops = Ok lU /\
+      Forall2 obs_equiv (map fst l) (map fst lU).
   Proof.
     intros Hno.
     destruct (run_rel hstate compute true ims_on parse_ims sanitize_ok prime negotiate rules_of dbg Hnovary ops [] [] hs now
                 (InvV_nil hstate compute rules_of) (cache_rel_nil rules_of)) as (l & El & Em).
-    exists l. split; [exact El|]. rewrite Em.
-    apply (run_sim hstate compute ims_on parse_ims sanitize_ok prime negotiate (vary_tuple_of rules_of) (vary_header_of rules_of)
-             cf Hpure contract pref_uniform Herr); [apply Inv_nil | exact Hno].
+    destruct (run_rel hstate compute false ims_on parse_ims sanitize_ok prime negotiate rules_of dbg Hnovary ops [] [] hsU now
+                (InvV_nil hstate compute rules_of) (cache_rel_nil rules_of)) as (lU & ElU & EmU).
+    exists l, lU. split; [exact El|]. split; [exact ElU|].
+    assert (Hsim : Forall2 obsx_equiv (map (fun oc => obx_of (fst oc)) l) (map (fun oc => obx_of (fst oc)) lU)).
+    { rewrite Em, EmU.
+      apply (run_simx hstate (computeX hstate compute) ims_on true status_filter_drop parse_ims sanitize_ok prime no_override
+               (negotiateX negotiate) (vary_tupleX rules_of) (vary_headerX rules_of) redirect_target
+               (fun r ov ok => plain (cf (lookup_req r ov) ok))).
+      - intros hs0 r ov ok. unfold computeX. pose proof (Hpure hs0 (lookup_req r ov) ok) as Hp.
+        destruct (compute hs0 (lookup_req r ov) ok) as [[f hs'] lg]. cbn [fst] in *. rewrite Hp. reflexivity.
+      - intros r ov r' ov' G G' Ht Hp Hq. f_equal. apply contract.
+        + rewrite lookup_req_method. exact G.
+        + rewrite lookup_req_method. exact G'.
+        + exact Ht.
+        + exact Hp.
+        + exact Hq.
+      - intros r ov. cbn [plain fx_fat]. apply Herr.
+      - apply TInv_nil.
+      - clear -Hno. induction Hno as [|o ops Ho _ IH]; cbn [map]; constructor; [|exact IH].
+        destruct o; exact Ho || exact Logic.I. }
+    clear -Hsim. revert lU Hsim. induction l as [|[a ca] l IH]; intros [|[c cc] lU] Hsim; cbn [map fst] in *;
+      inversion Hsim; subst; constructor.
+    - destruct a as [ra lga | |], c as [rc lgc | |]; cbn [obx_of obsx_equiv obs_equiv] in *; try assumption; try contradiction.
+      apply rx_equiv. assumption.
+    - apply IH. assumption.
   Qed.
 End VaryTransparent.
